@@ -210,6 +210,7 @@ func init() {
 				return globDepCase(c)
 			}
 			w := Generate(c.Tape, tierProfile(profC10, c.Tier))
+			AddTagArgs(c.Tape, w)
 			for i := range w.Nodes {
 				// launcher prefix (Process.Prepend): part of the command that is executed
 				if n := &w.Nodes[i]; n.Kind == KProc && n.Custom == 0 && c.Tape.Choose(simrt.StGen, 5, 0) == 1 {
